@@ -32,6 +32,7 @@ impl Deserialize for ConstrPlutusData {
                     let len = raw.array()?;
                     let mut read_len = CBORReadLen::new(len);
                     read_len.read_elems(2)?;
+                    read_len.finish()?;
                     let alternative = BigNum::deserialize(raw)?;
                     let data =
                         (|| -> Result<_, DeserializeError> { Ok(PlutusList::deserialize(raw)?) })()
